@@ -56,7 +56,7 @@ def judge(c, transfer, size, thr, prev=False, cancelled=False, provide_size=Fals
             out.append('c03: success reported although a fault was delivered')
         else:
             e = val
-            genuine = isinstance(e, (F.Injected, F.RetryableInjected)) or (
+            genuine = isinstance(e, (F.Injected, F.InjectedOS, F.RetryableInjected)) or (
                 isinstance(e, H.RetriesExceededError) and isinstance(e.last_exception, F.RetryableInjected)) or (
                 cancelled and isinstance(e, H.CancelledError))
             if not genuine:
